@@ -515,6 +515,26 @@ def run_check(prop: str, engine_mods, tier: str, seed: int, replay: str | None =
             for l in part["known_lines"]:
                 if l not in known_lines:
                     known_lines.append(l)
+        # static tie (engines may re-derive from the current source the shape their model assumes)
+        static_tie = {}
+        if replay_case is None:
+            for em in engine_mods:
+                fn = getattr(importlib.import_module(em), "static_tie", None)
+                if fn is None:
+                    continue
+                st = fn(prop, REPO)
+                if st is None:
+                    continue
+                static_tie[em.split(".")[-1]] = st
+                if st.get("deviations") and not violations:
+                    # the model no longer describes the code; the directed search above found no failing input
+                    rp = os.path.join(VERIF, "evidence", "replays", f"{prop}-tie.json")
+                    json.dump({"property": prop, "engine": em, "kind": "tie-broken",
+                               "what": st.get("what", "the source no longer has the shape the model assumes"),
+                               "deviations": st["deviations"], "searched": "amplified + search-tier histories found no failing input",
+                               "theorems_no_longer_about_the_code": st.get("theorems", [])},
+                              open(rp, "w"), indent=1)
+                    violations.append((rp, " no-failing-input-found"))
         cov = {
             "obligations": max(len(names), 1), "discharged": discharged, "theorems": names,
             "checker_cmd": "cd /verif/coq && coq_makefile -f _CoqProject -o Makefile theories/*/*.v && make  (Coq 8.16.1 kernel; Print Assumptions under every theorem of theories/Props/%s.v)" % prop,
@@ -531,6 +551,7 @@ def run_check(prop: str, engine_mods, tier: str, seed: int, replay: str | None =
             "partial_clauses": [c for p in parts for c in p["partial_clauses"]],
             "correspondence": [p["correspondence"] for p in parts],
             "anchors_changed": anchors_changed,
+            "static_tie": static_tie,
             "implementation_errors_or_timeouts": sum(p.get("timeouts_or_errors", 0) for p in parts),
             "cases_not_run_after_timeouts": sum(p.get("not_run", 0) for p in parts),
         }
